@@ -1,6 +1,7 @@
 package main
 
 import (
+	"encoding/json"
 	"flag"
 	"fmt"
 	"os"
@@ -151,6 +152,7 @@ func cmdRun(args []string) int {
 	rc.flags(fs)
 	hs := fs.String("h", "", "harnesses, comma separated (pkg.Func)")
 	show := fs.Int("show", 5, "failures to print")
+	dump := fs.Int("dump", 0, "print the replay records (JSON) of the first N failures")
 	fs.Parse(args)
 	rc.finish()
 	if *hs == "" {
@@ -170,6 +172,13 @@ func cmdRun(args []string) int {
 			return 2
 		}
 		printReport(rep, ms, *show)
+		for i, f := range rep.Fails {
+			if i >= *dump {
+				break
+			}
+			js, _ := json.Marshal(recordFromPath("", rc.tier, f))
+			fmt.Printf("RECORD %s\n", js)
+		}
 		if rep.FailCount > 0 {
 			code = 1
 		}
